@@ -42,14 +42,15 @@ class _BitVector(type):
             assert isinstance(size.start, int), "start parameter must be integer"
             assert isinstance(size.stop, int), "stop parameter must be integer"
 
-            if size.start == 0:
-                assert size.stop >= 0, "stop value cannot be negative"
-                order = BitOrder.UPTO
-                width = size.stop + 1
-            elif size.stop == 0:
+            # [0:0] is the vector of width one with the default order (BitVector[1])
+            if size.stop == 0:
                 assert size.start >= 0, "start value cannot be negative"
                 order = BitOrder.DOWNTO
                 width = size.start + 1
+            elif size.start == 0:
+                assert size.stop >= 0, "stop value cannot be negative"
+                order = BitOrder.UPTO
+                width = size.stop + 1
             else:
                 raise AssertionError(
                     "invalid BitVector declaration, start or stop must be 0"
